@@ -73,6 +73,7 @@ def end_to_end(chk, fam, text, nmodes, symm, variant, pairs, zs, ns, negl_of=Non
     G = {(int(t[1]), int(t[2])): t for t in r.get("impl", "G")}
     GC = {(int(t[1]), int(t[2])): t for t in r.get("impl", "GC")}
     GN = {(int(t[1]), int(t[2])): t for t in r.get("impl", "GN")}
+    GCP = {(int(t[1]), int(t[2])): t for t in r.get("impl", "GCOPY")}      # the same values read from a copy of the GreensFunction object
     OG = {(int(t[1]), int(t[2])): t for t in r.get("oracle", "G")}
     OGN = {(int(t[1]), int(t[2])): t for t in r.get("oracle", "GN")}
     for k, (i, j) in enumerate(pairs):
@@ -90,6 +91,10 @@ def end_to_end(chk, fam, text, nmodes, symm, variant, pairs, zs, ns, negl_of=Non
             else:
                 drop, merge, abssum = 1e-6, 0.0, abs(vo)
             pts.append(("z=%r" % (complex(*z),), vi, vc, vo, drop, merge, abssum))
+            if (i, j) in GCP:
+                vcp = L.cplx(GCP[(i, j)], 4 + 2 * q)
+                if vcp != vi and not (abs(vcp - vi) <= 1e-14 * (1.0 + abs(vi))):
+                    fails.append((i, j, "container", "z=%r (read from a COPY of the GreensFunction object)" % (complex(*z),), vcp, vi, 1e-14 * (1.0 + abs(vi))))
         bn = bnl[k] if k < len(bnl) else None
         for q, n in enumerate(ns):
             vi, vo = L.cplx(GN[(i, j)], 4 + 3 * q), L.cplx(OGN[(i, j)], 4 + 3 * q)
@@ -340,6 +345,8 @@ def run(chk):
         real_fails = [f for f in fails if f[0] != "crash"]
         if real_fails:
             shrink_and_report(chk, fam, text, nmodes, symm, variant, real_fails[0], zs, ns)
+    import distslice
+    distslice.gf_slice(chk, quick, "the value of the single-particle Green's function depends on the number of MPI ranks")
     # the C17 demonstration (model access trace vs sanitizer)
     if have_model:
         try:
